@@ -228,8 +228,14 @@ def cell_codec(ctx):
             for b, t in nxt:
                 ty = f.locals[t["args"][0]["pl"]["l"]] if t["args"][0].get("pl") else ""
                 w = t.get("resolved") or ""
-                desc.append("rows" if ("Vec<internal::value::ValueRef>" in (t.get("selfty") or "") or "Vec<internal::value::ValueRef>" in w or "Vec<internal::value::ValueRef>" in ty) else
-                            ("columns" if "Column" in (t.get("selfty") or "") + ty else "?"))
+                kind_ = "rows" if ("Vec<internal::value::ValueRef>" in (t.get("selfty") or "") or "Vec<internal::value::ValueRef>" in w or "Vec<internal::value::ValueRef>" in ty) else \
+                    ("columns" if "Column" in (t.get("selfty") or "") + ty else "?")
+                if kind_ == "?" and "ops::Range<" in ty + w:
+                    # `for index in 0..self.columns.len()`: a loop over the column numbers
+                    rv_ = S.val(t["args"][0])
+                    if re.search(r"Range\{c:0,std::vec::Vec::<T, A>::len\(&\*?p1\.columns\)\}", rv_):
+                        kind_ = "columns"
+                desc.append(kind_)
             kinds.append(",".join(desc))
         ok = len(kinds) == 2 and "rows" in kinds[0] and "columns" in kinds[1]
         ctx.check(ok, R, short(fname), "inner loop over %s, outer loop over %s" % tuple(kinds[:2]) if len(kinds) >= 2 else str(kinds),
